@@ -1608,6 +1608,7 @@ fn session(ctx: &Ctx, kernel: &K) -> WorldResult {
     let max_ops = if ctx.tier == Tier::Quick { 16 } else { 40 };
     let ops = if clean_start { 1 + kernel.borrow_mut().src.draw(max_ops) } else { 0 };
     let mut owed_wake = false;
+    let mut forced_ops: VecDeque<u32> = VecDeque::new();
     let mut hid_cursor = false;
     let mut image_pool: Vec<Image> = Vec::new();
     let mut image_twin: Box<dyn ImageHandler> = match app.term.as_mut().unwrap().image_handler().kind() {
@@ -1617,11 +1618,16 @@ fn session(ctx: &Ctx, kernel: &K) -> WorldResult {
         ImageHandlerKind::Dummy => Box::new(DummyImageHandler),
     };
     let mut typed_total = 0usize;
-    for _ in 0..ops {
+    let mut step = 0;
+    while step < ops || !forced_ops.is_empty() {
+        step += 1;
         if app.failed || app.blocked {
             break;
         }
-        let op = kernel.borrow_mut().src.draw(17);
+        let op = match forced_ops.pop_front() {
+            Some(op) => op,
+            None => kernel.borrow_mut().src.draw(17),
+        };
         match op {
             0 | 1 => {
                 // write payload
@@ -1867,6 +1873,12 @@ fn session(ctx: &Ctx, kernel: &K) -> WorldResult {
                     let gap = k.src.draw(800) as u64 * US;
                     k.schedule(delay + gap, Ev::Signal(sig, true));
                     k.src.fault("window-dragged");
+                    if forced_ops.is_empty() && k.src.chance(1, 2) {
+                        // ... while the application keeps drawing and the terminal may be slow:
+                        // emulator trouble, two frames, a poll, dropped frames, a poll, and the
+                        // application synchronises (each step draws its own details as usual)
+                        forced_ops.extend([12, 1, 4, 1, 4, 6, 8, 6, 13]);
+                    }
                 }
                 if k.src.chance(1, 4) {
                     // burst / duplicate
